@@ -63,7 +63,8 @@ class Eval:
             if d in ('np.round', 'np.rint', 'np.ceil', 'np.trunc', 'np.around', 'round') and \
                     e.args and self.ev(e.args[0], env) == R:
                 return ('DET', d)
-            if d == 'self.rng.random' or d.endswith('.rng.random') or d.endswith('rng.uniform'):
+            if d in ('self.rng.random', 'rng.random') or d.endswith('.rng.random') or \
+                    d.endswith('rng.uniform'):
                 return U
             if d == 'np.repeat' and len(e.args) >= 2 and not any(
                     k.arg == 'axis' for k in e.keywords):
